@@ -404,8 +404,10 @@ def c08_runs(scale, memcheck):
     out += runs('h_conc', CONC5, 'asan', 1, 6 * scale, prop='all', case_timeout=300, group='conc')
     if memcheck:
         vg = ['valgrind', '-q', '--error-exitcode=99', '--exit-on-first-error=yes', '--track-origins=no']
-        out += runs('h_grid', ['raster_queen', 'profile_nc', 'trimesh'], 'plain', 1, 10 ** 9,
+        out += runs('h_grid', ['raster_queen', 'profile_nc'], 'plain', 1, 10 ** 9,
                     ['--x-random', '10', '--x-enumdiv', '512'], prop='all', wrapper=vg, case_timeout=900)
+        # meshes are generated, not enumerated: the case count bounds the run
+        out += runs('h_grid', ['trimesh'], 'plain', 1, 40, prop='all', wrapper=vg, case_timeout=900)
         out += runs('h_flow', FLOW6, 'plain', 1, 150, prop='all', wrapper=vg, case_timeout=900)
         out += runs('h_hist', ['raster_queen', 'trimesh'], 'plain', 1, 10, prop='all', wrapper=vg, case_timeout=1800)
         out += runs('h_erode', ['raster_queen', 'trimesh', 'profile'], 'plain', 1, 150, prop='all', wrapper=vg, case_timeout=900)
